@@ -158,6 +158,16 @@ theorem goaway_broadcast (s : Sys) (stage : Int) (hx : s.exited = false)
     ∧ (step s (.signal stage)).draining = true ∧ (step s (.signal stage)).waited = 0 := by
   simp [step, hx, hcb, onShutdownWaits, onShutdownBroadcasts]
 
+/-- regenerated facts about the stream layers' go-away behaviour that the hand-written event machine and the driver
+rely on: HTTP/2 ignores streams begun after its GOAWAY *and discards their DATA frames* (so such a stream cannot take
+the connection — and the streams in flight on it — down), the GOAWAY names the last processed stream (the refused
+request is retryable), xprotocol sends the codec's go-away frame, HTTP/1 has no notification, and only xprotocol
+connections are handed over to the new process. -/
+theorem goaway_facts :
+    h2IgnoresNewStreamsAfterGoAway = true ∧ h2DiscardsDataAboveLastStream = true ∧ h2GoAwayCarriesLastStream = true ∧
+    xprotocolSendsGoAwayFrame = true ∧ http1GoAwayIsNoop = true ∧
+    transferableXprotocol = true ∧ transferableHttp1 = false ∧ transferableHttp2 = false := by decide
+
 /-- the part of the statement MOSN does NOT guarantee on a plain graceful stop (machine-checked witness of the
 finding): a request whose bytes have only partly arrived is not counted by the drain loop, so the exit label is enabled
 immediately — here with 15 s of drain time left — while that request is still incomplete. -/
